@@ -34,7 +34,7 @@ Extraction "model.ml"
   get_by_path_w get_by_path_first_w get_by_path_array_w path_exists_w path_match_w to_serde_json_m
   to_serde_json_object_m value_to_serde serde_to_value to_serde_json_w to_serde_json_object_w exists_all_keys_w
   exists_any_keys_w parse_lazy_value lazy_to_vec lazy_array_length lazy_to_value parse_json_path parse_key_paths
-  show_json_path show_key_paths float_placeholder safe_path leaf_path no_floats concat_w delete_by_name_w
+  show_json_path show_key_paths float_placeholder safe_path leaf_path no_floats nonfinite_floats concat_w delete_by_name_w
   delete_by_index_w array_insert_w build_array_w build_object_w build_array_st build_object_st object_insert_w
   object_delete_w object_pick_w strip_nulls_w delete_by_keypath_w contains_w array_distinct_w array_intersection_w
   array_except_w array_overlap_w key_safe_doc
